@@ -12,7 +12,7 @@ from predicate import predicate as PP
 from predicate.all_predicate import AllPredicate
 from predicate.any_predicate import AnyPredicate
 from predicate.named_predicate import NamedPredicate
-from predicate.optimizer.predicate_optimizer import optimize
+from predicate import optimize                # the PUBLIC entry point (what users import)
 from predicate.set_of_predicate import SetOfPredicate
 from predicate.comp_predicate import CompPredicate
 
